@@ -523,8 +523,26 @@ def plan_c14(doc: dict, man: dict, args: dict) -> list:
     return acts
 
 
+def plan_c13(doc: dict, man: dict, args: dict) -> list:
+    acts = []
+    eps = {e["name"]: e for e in man.get("endpoints") or []}
+    for key, case in (args.get("cases") or {}).items():
+        route = case["route"]
+        if route in ("direct", "ref", "allof"):
+            ent = (man.get("refs") or {}).get(f"/components/schemas/{key}")
+            if ent and ent["kind"] == "ModelProperty" and ent["cls"] in man["models"]:
+                acts.append({"a": "construct", "cls": ent["cls"], "kwargs": {}, "x": {"case": key}})
+        else:
+            e = eps.get(f"op_{key.lower()}")
+            if e:
+                mod = f"api.{e['tag']}.{e['module']}"
+                acts.append({"a": "endpoint_info", "module": mod, "x": {"case": key}})
+                acts.append({"a": "call", "module": mod, "variants": ["sync_detailed"], "args": {}, "client": {}, "response": {"status": 200}, "x": {"case": key}})
+    return acts
+
+
 def plan_import(doc, man, args):
     return [{"a": "import_all"}]
 
 
-PLANS = {"models": plan_models, "ops": plan_ops, "import": plan_import, "models_given": plan_models_given, "defaults": plan_defaults, "c05": plan_c05, "c14": plan_c14}
+PLANS = {"models": plan_models, "ops": plan_ops, "import": plan_import, "models_given": plan_models_given, "defaults": plan_defaults, "c05": plan_c05, "c14": plan_c14, "c13": plan_c13}
